@@ -240,8 +240,8 @@ func branchTerm(c *term, key ssa.Instruction, n int, pend *decision) bool {
 		d := rs.decisions[rs.pos]
 		panic(engineError{fmt.Sprintf("decision order mismatch: at %v#%d, pending %v#%d", key, n, d.site, d.occ)})
 	}
-	stats.forks++
 	if rs.noCheck == 0 {
+		// decide both sides now: an infeasible side never becomes a work item
 		rt := z3.check(c)
 		if rt == "unsat" {
 			assertPC(mkNot(c))
@@ -249,10 +249,18 @@ func branchTerm(c *term, key ssa.Instruction, n int, pend *decision) bool {
 			rs.pos++
 			return false
 		}
+		rf := z3.check(mkNot(c))
+		if rf == "unsat" {
+			assertPC(c)
+			rs.decisions = append(rs.decisions[:rs.pos], decision{key, n, true, false})
+			rs.pos++
+			return true
+		}
 	}
+	stats.forks++
 	nd := make([]decision, rs.pos, rs.pos+1)
 	copy(nd, rs.decisions[:rs.pos])
-	nd = append(nd, decision{key, n, false, rs.noCheck == 0})
+	nd = append(nd, decision{key, n, false, false})
 	curWorklist().push(item{snapshotDoms(), nd})
 	rs.decisions = append(rs.decisions[:rs.pos], decision{key, n, true, false})
 	rs.pos++
